@@ -408,7 +408,8 @@ func run(prop, tier string) int {
 				}
 			}
 		case "fixed":
-			if f.Property != prop {
+			if f.Property != prop || os.Getenv("VERIF_NO_REGRESSION") != "" {
+				// VERIF_NO_REGRESSION: campaigns measuring what the generated search finds on its own
 				continue
 			}
 			rep, msg, err := runReplay(anyBin, f.Replay, work)
